@@ -10,7 +10,7 @@ FUNCTIONS = ['postprocessing.filter_worst_knees', 'postprocessing.filter_corner_
              'rdp.compute_removed_points', 'clustering.*_linkage', 'knee_ranking.smooth_ranking / rank / rect_overlap', 'convex_hull.graham_scan_lower',
              'whole-pipeline slices: rdp.rdp / rdp_fixed / grdp / mp_grdp / min_point_rdp -> <detector>.multi_knee -> filters -> mapping']
 BOUNDS = dict(quick='compositional: original curve n = 7, every reduction keeping m = 4..5 points, every strictly increasing knee set inside [0, m-2] with 2..3 knees, '
-                    'reduced-curve heights and all thresholds symbolic, {single, average} linkage x {linear, hull, left} ranking; whole pipeline: 5 simplifiers x 5 detectors on slices of 3 pool curves',
+                    'reduced-curve heights and all thresholds symbolic, {single, average} linkage x {linear, hull, left} ranking; whole pipeline: {rdp, rdp_fixed, grdp} x 5 detectors (thorough: all 5 simplifiers) on slices of one five-point pool curve',
               thorough='compositional: n = 8, m = 4..6, 4 linkages x 4 rankings; whole pipeline: 6 pool curves, every position')
 ASSUMPTIONS = ['exact real arithmetic (T1)', 'assume-guarantee: the simplifier output is any strictly increasing index set with both ends (C01) and the detector output any strictly increasing '
                'subset of [0, m-2] of the reduced curve (C02); the filters and the mapping are the real code',
@@ -23,12 +23,12 @@ DETS = ['curvature', 'dfdt', 'menger', 'lmethod', 'kneedle']
 def cases(tier, seed):
     q = tier == 'quick'
     out = []
-    for ci in ([0, 1, 3] if q else [0, 1, 2, 3, 5, 8]):
+    for ci in ([0] if q else [0, 1, 2, 3, 5, 8]):
         n = len(POOL[ci])
         for pos in ([[n // 2]] if q else [[i] for i in range(n)]):
             for si, s in enumerate(SIMPL):
                 for di, d in enumerate(DETS):
-                    if q and (si + di + ci) % 3 != 0:
+                    if q and ((si + di + ci) % 2 != 0 or s in ('mp_grdp', 'min_point_rdp')):
                         continue
                     out.append(dict(fn='whole', curve=ci, pos=pos, simplifier=s, detector=d, int_range=[-3, 8]))
     n = 7 if q else 8
@@ -45,7 +45,7 @@ def cases(tier, seed):
                     continue
                 for li, link in enumerate(links):
                     for mi, mode in enumerate(modes):
-                        if q and (li + mi + m) % 2:
+                        if q and ((li + mi + m) % 2 or (m == 5 and mode != 'linear')):
                             continue
                         out.append(dict(fn='stages', n=n, xs=xs, reduced=red, knees=knees, linkage=link, mode=mode))
     return out
